@@ -13,9 +13,11 @@ RULE = ("random projects/memory images/configurations as for C01; each write() c
         "SINT/INT/DINT/LINT, several bits of one word, BOOL-array elements and aligned DWORD ranges (true elements also spelled 1 / 2 / 0xFF / -1: "
         "judged by truthiness), BOOL members, strings shorter/equal/longer "
         "than capacity, nested structure dicts, duplicates, sizes forcing fragmented writes; bits of unsigned integers too); in 20 % of the calls the target "
-        "refuses the n-th write service with a general status drawn from tabled AND untabled codes (0x17, 0x19, 0x20, 0x21, 0x30, 0xD0 ...) - such a write may not "
+        "refuses the n-th write service with a general status drawn from tabled AND untabled codes (0x17, 0x19, 0x20, 0x21, 0x30, 0xD0 ..., and 0x06 for the services "
+        "that do not continue) - such a write may not "
         "report success; values without an encoding for the tag's type (3.7 / nan / inf / 1e30 to an integer) may neither change memory nor report success; "
-        "the caller's value objects are deep-copied before the call and must be unchanged after it; the whole controller memory is snapshotted "
+        "the caller's value objects are deep-copied before the call and must be unchanged after it; every third project holds an array sized so that overlapping "
+        "plain writes of one call (slice, slice again, element) land in different multi-service packets - the last request for a byte must win; the whole controller memory is snapshotted "
         "before the call and diffed after it against the reference expectation (addressed bytes = reference encoding, padding/hidden/after-LEN "
         "bytes don't-care, every other byte unchanged); the target's journal of executed write services is matched against the requests "
         "(exactly one Write / one tiling fragment sequence / one read-modify-write per word with exact-width masks touching only requested "
